@@ -184,6 +184,34 @@ def _arrays(case):
     return D, G, Q, w, cell
 
 
+# ------------------------------------------------------------------------------ input presentations
+# case["present"] = {"G"|"D"|"w"|"Q": how}: the SAME values handed over as another dtype / layout.
+PRESENT_EXACT = ("int64", "int32", "fortran", "list", "noncontig")
+
+
+def _present(a, how):
+    if a is None or how is None:
+        return a
+    a = np.asarray(a, dtype=float)
+    if how in ("int64", "int32"):
+        return a.astype(how)
+    if how == "f32":
+        return a.astype(np.float32)
+    if how == "fortran":
+        return np.asfortranarray(a)
+    if how == "list":
+        return a.tolist()
+    if how == "noncontig":                       # a strided view into a wider buffer
+        if a.ndim == 2:
+            buf = np.zeros((a.shape[0], 2 * a.shape[1] + 1))
+            buf[:, ::2][:, :a.shape[1]] = a
+            return buf[:, ::2][:, :a.shape[1]]
+        buf = np.zeros(2 * len(a))
+        buf[::2] = a
+        return buf[::2]
+    raise ValueError(how)
+
+
 def fit_impl(case, timeout=10, record=True, est=None):
     """Fit through the public API with recording wrappers around the private helpers
     (no source change).  Returns (estimator or None, record dict).  With `est` an EXISTING
@@ -191,6 +219,8 @@ def fit_impl(case, timeout=10, record=True, est=None):
     import skmatter.neighbors._sparsekde as M
     from skmatter.neighbors import SparseKDE
     D, G, Q, w, cell = _arrays(case)
+    pr = case.get("present") or {}
+    D, G, w = _present(D, pr.get("D")), _present(G, pr.get("G")), _present(w, pr.get("w"))
     given = est
     rec = dict(locpop=[], grids=[])
     orig_lp, orig_bw = M._local_population, SparseKDE._bandwidth_estimation_from_localization
@@ -272,6 +302,7 @@ def fit_impl(case, timeout=10, record=True, est=None):
 
 def score_impl(est, case, rec):
     D, G, Q, w, cell = _arrays(case)
+    Q = _present(Q, (case.get("present") or {}).get("Q"))
     try:
         s = est.score_samples(Q)
         rec["scores"] = [float(x) for x in s]
@@ -365,7 +396,7 @@ def mixture_reference(case, rec):
                     terms.append(-0.5 * (lognorm[j] + md) + math.log(W[j]))
             else:
                 for i in range(len(D)):
-                    if lab[i] == j and np.any(D[i] != x):
+                    if lab[i] == j and np.any(D[i] != x) and wts[i] > 0:
                         u = pbc_delta(D[i], x, cell)
                         terms.append(-0.5 * (lognorm[j] + float(u @ Hinv[j] @ u)) + math.log(wts[i]))
         out.append(_lse(terms) - math.log(sum(W)))
@@ -603,6 +634,19 @@ def gen_queries(rng, D, G, nq):
     return Q
 
 
+def gen_count_weights(rng, n):
+    """integer weights with EXACT zeros: bootstrap counts (resampling n out of n) or a 0/1.. mask"""
+    if rng.random() < 0.5:
+        cnt = [0] * n
+        for _ in range(n):
+            cnt[rng.randrange(n)] += 1
+        return [float(x) for x in cnt]
+    w = [float(rng.choice([0, 0, 1, 1, 2, 3])) for _ in range(n)]
+    if sum(w) == 0:
+        w[rng.randrange(n)] = 1.0
+    return w
+
+
 def gen_kw(rng):
     if rng.random() < 0.3:
         return dict(fspread=rng.choice([0.01, 0.05, 0.2, 0.5, 1.0]))
@@ -637,7 +681,10 @@ def gen_history(rng, quick):
                 cur["D"] = gen_cloud(rng, n, d, cur["kind"])
                 cur["w"] = None if rng.random() < 0.5 else [rng.randint(1, 16) / 8.0 for _ in range(n)]
             if "weights" in what:
-                cur["w"] = [rng.randint(1, 16) / 8.0 for _ in range(len(cur["D"]))]
+                if rng.random() < 0.4:
+                    cur["w"] = gen_count_weights(rng, len(cur["D"]))
+                else:
+                    cur["w"] = [rng.randint(1, 16) / 8.0 for _ in range(len(cur["D"]))]
             if "kw" in what:
                 cur["kw"] = gen_kw(rng)
             steps.append(dict(op="set", D=cur["D"], w=cur["w"], kw=cur["kw"], what=what))
@@ -730,7 +777,7 @@ def history_impl(hist, timeout=10):
     return obs
 
 
-def oracle_state(case, rec, tol=1e-9):
+def oracle_state(case, rec, tol=1e-9, wtol=1e-12):
     """C17, first sentence, on the fitted state of an estimator: labels are nearest grid points under
     the (periodic) metric (exact rational arithmetic on the binary64 inputs; a label is accepted if
     its distance is within `tol` of the minimum), member lists are the label classes, the grid weights
@@ -743,7 +790,7 @@ def oracle_state(case, rec, tol=1e-9):
     w = [1.0] * n if case["w"] is None else case["w"]
     tot = sum(Fr(x) for x in w)
     nw = [Fr(x) / tot for x in w]
-    if len(rec["weights"]) != n or any(abs(Fr(a) - b) > Fr(1, 10 ** 12) for a, b in zip(rec["weights"], nw)):
+    if len(rec["weights"]) != n or any(abs(Fr(a) - b) > Fr(wtol) for a, b in zip(rec["weights"], nw)):
         return "the descriptor weights in use are not weights / sum(weights)"
     lab = rec["labels"]
     if len(lab) != n:
@@ -766,10 +813,10 @@ def oracle_state(case, rec, tol=1e-9):
         mem = [i for i in range(n) if lab[i] == j]
         if rec["members"][j] != mem:
             return "member list of grid point %d is not its label class" % j
-        if abs(Fr(rec["W"][j]) - sum((nw[i] for i in mem), Fr(0))) > Fr(1, 10 ** 12):
+        if abs(Fr(rec["W"][j]) - sum((nw[i] for i in mem), Fr(0))) > Fr(wtol):
             return "grid weight %d (%r) is not the sum of the assigned descriptor weights (%r)" % (
                 j, rec["W"][j], float(sum((nw[i] for i in mem), Fr(0))))
-    if abs(sum(Fr(x) for x in rec["W"]) - 1) > Fr(1, 10 ** 9):
+    if abs(sum(Fr(x) for x in rec["W"]) - 1) > (Fr(1, 10 ** 9) if wtol <= 1e-12 else Fr(1, 10 ** 5)):
         return "grid weights do not total one"
     return None
 
